@@ -24,6 +24,7 @@ type c14Case struct {
 	CSRDER   []byte   // pre-placed request (CSR case)
 	Lead     string   // text before the first block
 	Trail    string   // text after the last block
+	HashPos  int      `json:",omitempty"` // a (stale) hash line in the pre-placed file: 0 none, 1 first, 2 after the first block, 3 after the last block
 	WithCert bool     // a (foreign) certificate beside the key
 	Steps    []string // regeneration reasons
 	CfgAlg   string   // keyAlgorithm written in the target's config at the start
@@ -51,16 +52,28 @@ func c14World(c c14Case) World {
 	}
 	var buf []byte
 	buf = append(buf, c.Lead...)
+	var blocks [][]byte
 	if c.WithCert && c.KeyDER != nil {
 		if xk, err := xref.ParsePKCS8(c.KeyDER); err == nil && xk.Kind == "ec" {
-			buf = append(buf, core.PemBlock("CERTIFICATE", builtSelfSigned(c.KeyDER, "Old certificate", false))...)
+			blocks = append(blocks, core.PemBlock("CERTIFICATE", builtSelfSigned(c.KeyDER, "Old certificate", false)))
 		}
 	}
 	if c.KeyDER != nil {
-		buf = append(buf, core.PemBlock("PRIVATE KEY", c.KeyDER)...)
+		blocks = append(blocks, core.PemBlock("PRIVATE KEY", c.KeyDER))
 	}
 	if c.CSRDER != nil {
-		buf = append(buf, core.PemBlock("CERTIFICATE REQUEST", c.CSRDER)...)
+		blocks = append(blocks, core.PemBlock("CERTIFICATE REQUEST", c.CSRDER))
+	}
+	// the hash line of an earlier run (of another configuration), wherever the user's editing left it
+	stale := []byte("#HASH:c3RhbGUgaGFzaCBvZiBhbiBlYXJsaWVyIGNvbmZpZ3VyYXRpb24=\n")
+	for i, b := range blocks {
+		if c.HashPos == 1 && i == 0 || c.HashPos == 2 && i == 1 {
+			buf = append(buf, stale...)
+		}
+		buf = append(buf, b...)
+	}
+	if c.HashPos == 3 || c.HashPos == 2 && len(blocks) == 1 {
+		buf = append(buf, stale...)
 	}
 	buf = append(buf, c.Trail...)
 	w.Files = map[string][]byte{core.PemPath(t.File): buf}
@@ -177,16 +190,16 @@ var c14Steps = []string{"edit-subject", "edit-keyalg", "all", "touch-outdated", 
 func TestC14(t *testing.T) {
 	r := core.Start(t, "C14")
 	defer r.Finish()
-	r.Rule = "three-tier hierarchy ca -> mid -> leaf; the target (any tier) pre-holds a PKCS#8 key written in gopki's shape, crypto/x509's shape or another legal shape from the harness builder (curve OID inside / outside / both, public key omitted, minimal or zero-padded scalar) for all ten curves and pooled RSA 1024/2048 (4096 in thorough), optionally with an old certificate beside it and with text before the first / after the last PEM block; or (leaf only) a certificate request and no key. Then 1-4 regenerations by different reasons: subject edit, keyAlgorithm edit, generate-all, touched config with -o, certificate block removed, issuer edited. Oracle after every run: same key (curve,d)/(n,e,d) in the file, certificate SPKI == that key's public key recomputed by the harness, chain checks of C01 over all three tiers; request case: request block byte-identical, SPKI == request's, no PRIVATE KEY block. Non-trivial = >= 2 regenerations of a non-P-256 key, or a foreign encoding / surrounding text, or the request case; distinct by the full case."
+	r.Rule = "three-tier hierarchy ca -> mid -> leaf; the target (any tier) pre-holds a PKCS#8 key written in gopki's shape, crypto/x509's shape or another legal shape from the harness builder (curve OID inside / outside / both, public key omitted, minimal or zero-padded scalar) for all ten curves and pooled RSA 1024/2048 (4096 in thorough), optionally with an old certificate beside it, with text before the first / after the last PEM block and with the hash line of an earlier run in front of, between or behind the blocks; or (leaf only) a certificate request and no key. Then 1-4 regenerations by different reasons: subject edit, keyAlgorithm edit, generate-all, touched config with -o, certificate block removed, issuer edited. Oracle after every run: same key (curve,d)/(n,e,d) in the file, certificate SPKI == that key's public key recomputed by the harness, chain checks of C01 over all three tiers; request case: request block byte-identical, SPKI == request's, no PRIVATE KEY block. Non-trivial = >= 2 regenerations of a non-P-256 key, or a foreign encoding / surrounding text, or the request case; distinct by the full case."
 	r.Assumptions = []string{"a key on a curve gopki does not support is outside the property and not generated"}
 	wrap := func(c c14Case) *core.Failure {
-		nt := len(c.Steps) >= 2 && c.KeyAlg != "P-256" || c.Lead != "" || c.Trail != "" || c.CSRDER != nil
+		nt := len(c.Steps) >= 2 && c.KeyAlg != "P-256" || c.Lead != "" || c.Trail != "" || c.CSRDER != nil || c.HashPos > 1
 		if c.CSRDER != nil && c.KeyDER != nil {
 			r.Classes["key-plus-stale-request"]++
 		}
 		key := ""
 		if nt {
-			key = fmt.Sprintf("%s %s %x %v %q %q", c.Target, c.KeyAlg, c.KeyDER, c.Steps, c.Lead, c.Trail)
+			key = fmt.Sprintf("%s %s %x %v %q %q %d", c.Target, c.KeyAlg, c.KeyDER, c.Steps, c.Lead, c.Trail, c.HashPos)
 		}
 		cls := []string{"target:" + c.Target, "alg:" + c.KeyAlg, fmt.Sprintf("steps:%d", len(c.Steps))}
 		if c.CSRDER != nil && c.KeyDER == nil {
@@ -195,6 +208,7 @@ func TestC14(t *testing.T) {
 		for _, s := range c.Steps {
 			cls = append(cls, "step:"+s)
 		}
+		cls = append(cls, []string{"hash-line:none", "hash-line:first", "hash-line:between-blocks", "hash-line:last"}[c.HashPos])
 		r.Case(key, cls...)
 		r.Sample("target:"+c.Target, map[string]any{"target": c.Target, "alg": c.KeyAlg, "steps": c.Steps, "lead": c.Lead, "trail": c.Trail, "request": c.CSRDER != nil})
 		return checkC14(c)
@@ -266,6 +280,7 @@ func TestC14(t *testing.T) {
 				c.CfgAlg = c.KeyAlg
 			}
 		}
+		c.HashPos = rapid.SampledFrom([]int{0, 0, 1, 2, 3}).Draw(t, "hashpos")
 		c.Lead = rapid.SampledFrom([]string{"", "", "", "# my key, do not lose\n", "\n\n", "Bag Attributes\n    friendlyName: x\n"}).Draw(t, "lead")
 		c.Trail = rapid.SampledFrom([]string{"", "", "", "\n", "# end of file\n", "trailing text without newline", "\r\n\r\n"}).Draw(t, "trail")
 		if rapid.IntRange(0, 5).Draw(t, "bigext") == 0 {
